@@ -1,7 +1,7 @@
 SPECIFICATION Spec
 CONSTANTS
   Procs <- P2
-  Dev <- DevSnap
+  Dev <- DevSnapNever
   Scenarios <- ScnCursor
 INVARIANT NoFailure
 INVARIANT SerialResults
